@@ -32,6 +32,14 @@ CHECKS = {
                 technique="Hypothesis-generated particle arrays through ctypes + mpmath linear-map oracle written from the coordinate definitions + round trip + variant agreement",
                 text="No counterexample among ~6.8k generated particle sets per quick run (x4 coordinate systems): the forward maps equal the textbook definitions of Jacobi / democratic heliocentric / WHDS / barycentric coordinates with slot 0 = total active mass and centre of mass; inverse(forward) returns positions and velocities to 4(N+8)*eps*(|A^-1| fwd)*max|x|; pos / posvel / acc variants agree; the MERCURIUS/TRACE heliocentric shifts and move_to_hel/com behave as defined, for any N_active, zero-mass bodies and mass ratios to 1e-12. One open known finding (Jacobi inverse recovers mass sums by subtraction).",
                 note="Trusts mpmath and the harness's transcription of the coordinate definitions; domain m0>0; the output array of an inverse carries the masses; sentinel-filled output arrays detect unwritten members."),
+    "C14": dict(level="exploration", design="1/C14",
+                technique="model-based PBT of add/remove/hash histories through the C API, the Python container and an ASan/UBSan C driver, plus a coverage-guided libFuzzer campaign with the model inside the target",
+                text="Generated operation histories in three variants (plain, box+tree gravity, MERCURIUS) are executed through the C API, the Python particles container and a sanitizer-instrumented C driver, each compared after every operation with a list model of (tag, hash) and N_active; invalid requests must fail and leave the serialised state byte-identical; lookups return a particle carrying the key iff the model holds one. A coverage-guided libFuzzer campaign explores the same byte language with the model inside the target. No counterexample among the counted histories.",
+                note="Trusts sa_format + save_to_stream as the state observation and clang ASan/UBSan (minus nonnull-attribute on qsort(NULL,0) and float-divide-by-zero). The N_active rule is asserted only for sorted removal and remove-all (the documented rule); among duplicates any particle carrying the hash may be returned. Mid-step removal (encounter-map bookkeeping) is not reached."),
+    "C18": dict(level="exploration", design="1/C18",
+                technique="exhaustive enumeration: compiler-generated offsetof/sizeof/kind table from the preprocessed rebound.h vs ctypes field descriptors; option names vs C enumerators with C-side read-back; documented assignments executed literally",
+                text="Every member of the 26 mirrored structures is compared (offset, size, kind, signedness, name) between a gcc-compiled program generated from the tree's rebound.h and the ctypes classes of the tree's Python package; every named option value and function option is set by name in Python, read from C by a helper compiled against the header, compared with the enumerator of the same name and read back; every documented option assignment in the docs is executed. The whole finite domain is covered on this platform (exhaustive: true). One open known finding (python_unit_l/m/t order).",
+                note="Trusts gcc's layout being the library's (same compiler and defines), the harness's declaration parser (a generated program that does not compile is a harness error) and inspect.getsource for the field/property clash test. Enum members may be c_int or c_uint; pointer kinds are interchangeable. Linux x86-64 default build only."),
 }
 
 NOT_APPLICABLE = []
